@@ -29,7 +29,7 @@ def main():
         sh("git -C %s worktree remove --force %s" % (REPO, wt)); shutil.rmtree(wt, ignore_errors=True)
         rc, out = sh("git -C %s worktree add -q --detach %s HEAD && rsync -a --ignore-existing --exclude=.git %s/ %s/" % (REPO, wt, REPO, wt))
         try:
-            rc, out = sh("git apply --3way %s 2>&1 || git apply %s" % (patch, patch), cwd=wt)
+            rc, out = sh("git apply %s 2>&1 || git apply --3way %s" % (patch, patch), cwd=wt)
             res["applies"] = rc == 0
             if rc != 0:
                 res["apply_output"] = out[-800:]
@@ -56,7 +56,7 @@ def main():
         finally:
             sh("git -C %s worktree remove --force %s" % (REPO, wt)); shutil.rmtree(wt, ignore_errors=True)
     # --- 2. run the checks against the patched /repo
-    rc, out = sh("git -C %s apply --3way %s 2>&1 || git -C %s apply %s" % (REPO, patch, REPO, patch))
+    rc, out = sh("git -C %s apply %s 2>&1 || (git -C %s apply --3way %s 2>&1 && git -C %s reset -q HEAD)" % (REPO, patch, REPO, patch, REPO))
     if rc != 0:
         res["repo_apply_failed"] = out[-500:]
     else:
@@ -77,15 +77,23 @@ def main():
                             pass
                 res.setdefault("checks", {})[pid] = r
         finally:
-            sh("git -C %s checkout -- ." % REPO)
-            sh("git -C %s status --short | grep -v '^??'" % REPO)
+            sh("git -C %s reset -q HEAD; git -C %s checkout -- ." % (REPO, REPO))
     # --- 3. archive
     dst = os.path.join(VERIF, "seeded", "%s-%s" % (a.pid, a.var))
     os.makedirs(dst, exist_ok=True)
     for f in ("patch.diff", "demo.md"):
         if os.path.exists(os.path.join(src, f)): shutil.copy(os.path.join(src, f), os.path.join(dst, f))
-    meta["confirmation"] = {k: v for k, v in res.items() if k != "checks"}
-    meta["detection"] = res.get("checks", {})
+    prev = {}
+    if a.skip_confirm and os.path.exists(os.path.join(dst, "meta.json")):
+        try: prev = json.load(open(os.path.join(dst, "meta.json"))).get("confirmation", {})
+        except Exception: prev = {}
+    meta["confirmation"] = prev if (a.skip_confirm and prev) else {k: v for k, v in res.items() if k != "checks"}
+    det = {}
+    if os.path.exists(os.path.join(dst, "meta.json")):
+        try: det = json.load(open(os.path.join(dst, "meta.json"))).get("detection", {})
+        except Exception: det = {}
+    det.update(res.get("checks", {}))
+    meta["detection"] = det
     json.dump(meta, open(os.path.join(dst, "meta.json"), "w"), indent=1)
     print(json.dumps(res, indent=1)[:3000])
     return 0
